@@ -6,7 +6,7 @@ CONSTANTS
   Halos = {0, 1, 3}
   ModeSet = {202, 402, 1212}
   NZs = {4}
-  LevelLists = "asc"
+  LevelLists = "mixed"
   Tabs = {1}
   Analytic = {FALSE, TRUE}
   Family = "conserve"
